@@ -746,7 +746,18 @@ class Engine:
             env.bind(out_name, self.eval(comp, env))
             return
         broke = False
-        for x in items:
+        live = it if type(it) is list else None       # CPython iterates a list by index over the LIVE object: mutation in the body is visible
+        k = 0
+        while True:
+            if live is not None:
+                if k >= len(live):
+                    break
+                x = live[k]
+            else:
+                if k >= len(items):
+                    break
+                x = items[k]
+            k += 1
             self.assign(st.target, x, env)
             try:
                 self.exec_block(st.body, env)
